@@ -79,8 +79,27 @@ let handle_time op args =
   | "tscheck", [s; n] -> [hex_of_z (TimestampModel.ts_check (z_of_hex s) (z_of_hex n))]
   | _ -> failwith ("known: unknown op " ^ op)
 
+(* ---- JSON forms (C23) ---- *)
+let mres = function
+  | WktJsonModel.MOk s -> ["ok"; hex_of_bytes s]
+  | WktJsonModel.MErr c -> ["e" ^ string_of_int (int_of_z c)]
+let handle_json op args =
+  match op, args with
+  | "mdur", [s; n] -> mres (WktJsonModel.marshal_duration (z_of_hex s) (z_of_hex n))
+  | "udur", [b] ->
+    (match WktJsonModel.unmarshal_duration (bytes_of_hex b) with
+     | WktJsonModel.UOk (s, n) -> ["ok"; hex_of_z s; hex_of_z n]
+     | WktJsonModel.UErr c -> ["e" ^ string_of_int (int_of_z c)])
+  | "mfm", ps -> mres (WktJsonModel.marshal_fieldmask (paths_of ps))
+  | "ufm", [b] ->
+    (match WktJsonModel.unmarshal_fieldmask (bytes_of_hex b) with
+     | Some ps -> "ok" :: out_paths ps
+     | None -> ["e1"])
+  | _ -> failwith ("known: unknown op " ^ op)
+
 let handle op args =
   match op with
+  | "mdur" | "udur" | "mfm" | "ufm" | "mts" | "uts" -> handle_json op args
   | "asdur" | "durnew" | "durcheck" | "tsnew" | "astime" | "tscheck" -> handle_time op args
   | _ -> handle_fm op args
 
